@@ -32,7 +32,7 @@ func init() {
 		Level: "model_checking",
 		Rule: "E2 explicit-state breadth-first search over real TailBitmap objects. Starts (all built with real calls): empty at offset 0/64/640; three words filled except H holes in forward, backward and interleaved fill order (offset 0 and 64); two starts that cross the real 1024-word reclaim threshold (1023 full words then holes; words 1..1025 full with the holes in word 0, so one Set compacts >1024 words). " +
 			"Alphabet per state: Set(every hole), Set below Offset (0, Offset-1, Offset-64), Set beyond the end (end+1, end+129, while the bitmap has grown < 130 bits), Set of an already-set bit, Compact. Successors are produced by cloning the object and calling the real method; the state key is every field the implementation can read (Offset, Words, and all unexported fields through reflect). " +
-			"After EVERY transition (before deduplication): Get/Get1 on the whole window [Offset-130, end) ∪ {0, o-1} against the model (when more than 1024 bits are stored: every bit within 66 of Offset, the end, every hole, every position ever set and the operation's index, plus the first and last bit of every stored word), Offset ≡ 0 mod 64 and monotone, no 0 bit skipped, first stored word ≠ all-ones after Set, highest index ever set < end, Compact changes no Get. Every discovered state is additionally re-reached by replaying its shortest path on a freshly built object (differential: cloned chain vs fresh replay). Non-trivial transitions: those that change the state.",
+			"After EVERY transition (before deduplication): Get/Get1 on the whole window [Offset-130, end) ∪ {0, o-1} against the model (when more than 1024 bits are stored: every bit within 66 of Offset, the end, every hole, every position ever set and the operation's index, plus the first and last bit of every stored word), Offset ≡ 0 mod 64 and monotone, no 0 bit skipped, first stored word ≠ all-ones after Set, highest index ever set < end, Compact changes no Get. Every discovered state is additionally re-reached by replaying its shortest path on a freshly built object (differential: cloned chain vs fresh replay), and every eighth state (and every state of depth ≤3) once more with a second, unrelated TailBitmap operated between the steps (objects must not share state). Non-trivial transitions: those that change the state.",
 		Assumptions: []string{
 			"histories are those reachable with the per-start alphabet; the search is complete for that alphabet (all reachable states, every operation from every state)",
 			"the clone copies every field by struct copy plus a deep copy of Words; hidden state outside the struct would be caught only by the fresh-replay pass",
@@ -475,7 +475,7 @@ func c15Run(c *mc.Ctx) {
 		}
 		tSearch := time.Since(t0).Seconds()
 		// differential pass: re-reach every state by replaying its shortest path on a fresh object
-		var replays int64
+		var replays, bystanders int64
 		for i := 1; i < len(nodes); i++ {
 			if c.Expired() || c.TooMany() {
 				c.Cap("time budget reached during the fresh-replay pass of start " + st.name)
@@ -490,11 +490,28 @@ func c15Run(c *mc.Ctx) {
 			if c15Key(fresh) != c15Key(nodes[i].tb) {
 				c.Fail(int64(si)<<40|1<<39|int64(i), "replay", "replay", c15Case{Start: st.name, Ops: path}, "state reached on a fresh object: "+clipS(c15Key(fresh)), "state reached through clones: "+clipS(c15Key(nodes[i].tb)))
 			}
+			// bystander: the same history with a second, unrelated TailBitmap operated between the
+			// steps must end in the same state (objects do not share state)
+			if i%8 == 1 || len(path) <= 3 {
+				a := st.build()
+				b := bitmap.NewTailBitmap(128)
+				for k, op := range path {
+					b.Set(int64(128 + (k*37)%200))
+					c15Apply(a, op)
+					b.Compact()
+					b.Set(int64(128 + k))
+				}
+				bystanders++
+				if c15Key(a) != c15Key(nodes[i].tb) {
+					c.Fail(int64(si)<<40|1<<38|int64(i), "bystander", "bystander", c15Case{Start: st.name, Ops: path}, "state with a second TailBitmap operated in between: "+clipS(c15Key(a)), "state when run alone: "+clipS(c15Key(nodes[i].tb)))
+				}
+			}
 		}
 		c.Add("states", int64(len(nodes)))
 		c.Add("transitions", trans)
 		c.Add("traces_validated_against_impl", trans+replays)
 		c.Add("fresh_replays", replays)
+		c.Add("bystander_replays", bystanders)
 		c.Count(trans, changed)
 		c.Max("max_depth", maxDepth)
 		c.Set("start/"+st.name, map[string]interface{}{"states": int64(len(nodes)), "transitions": trans, "max_depth": maxDepth, "search_s": tSearch, "total_s": time.Since(t0).Seconds()})
@@ -544,6 +561,17 @@ func c15Judge(kind string, cs c15Case) (got, want string) {
 			}
 		}
 		return "invariant holds", "invariant holds"
+	case "bystander":
+		a := st.build()
+		b := bitmap.NewTailBitmap(128)
+		for k, op := range cs.Ops {
+			b.Set(int64(128 + (k*37)%200))
+			c15Apply(a, op)
+			b.Compact()
+			b.Set(int64(128 + k))
+			c15Apply(tb, op)
+		}
+		return "with a second TailBitmap operated in between: " + clipS(c15Key(a)), "with a second TailBitmap operated in between: " + clipS(c15Key(tb))
 	case "replay":
 		// clone after every step vs no clone at all
 		cl := st.build()
